@@ -1,8 +1,9 @@
 ------------------------------- MODULE Field -------------------------------
 (***************************************************************************)
 (* Value semantics of flowdyn.field: fdata objects (constructor, copy,      *)
-(* set, interpol_t, diff, set_time), the arrays they own, the arrays the    *)
-(* user handed in, and the fieldlist container (which holds REFERENCES).    *)
+(* set, interpol_t, diff, set_time, reset, zero_datalist), the arrays they  *)
+(* own, the arrays the user handed in, and two fieldlist containers (which  *)
+(* hold REFERENCES; append, extend).                                        *)
 (*                                                                         *)
 (* The heap is explicit: `arr` maps array identities to contents, a field   *)
 (* is a record pointing to the array it owns.  What the driver relies on    *)
@@ -28,7 +29,7 @@ CONSTANTS Vals,      \* values written into arrays
 VARIABLES arr,    \* heap: sequence of arrays (each a sequence of 2 integers); the index is the array's identity
           usr,    \* identities of the arrays the user holds (created by the user, passed to constructors)
           fld,    \* sequence of field objects [a: array identity, t: time, it: iteration stamp]
-          lst,    \* the fieldlist: sequence of field identities (references)
+          lst,    \* the two fieldlists: each a sequence of field identities (references)
           hist    \* operations so far, each with the observable state it left
 
 fvars == <<arr, usr, fld, lst, hist>>
@@ -37,16 +38,18 @@ N == 2     \* cells
 
 Obs(a, f, l) == [flds |-> [k \in 1..Len(f) |-> [v |-> a[f[k].a], t |-> f[k].t, it |-> f[k].it]],
                  uarr |-> [k \in 1..Len(a) |-> a[k]],
-                 list |-> l,
-                 times |-> [k \in 1..Len(l) |-> f[l[k]].t],
-                 its |-> [k \in 1..Len(l) |-> f[l[k]].it]]
+                 list |-> l[1],
+                 times |-> [k \in 1..Len(l[1]) |-> f[l[1][k]].t],
+                 its |-> [k \in 1..Len(l[1]) |-> f[l[1][k]].it],
+                 list2 |-> l[2],
+                 times2 |-> [k \in 1..Len(l[2]) |-> f[l[2][k]].t]]
 
 Log(op, args, a, f, l) == hist' = Append(hist, [op |-> op, args |-> args, obs |-> Obs(a, f, l)])
 
 Init == /\ arr = << <<0, 2>>, <<0, 2>> >>            \* the user's array and the copy the first field owns
         /\ usr = {1}
         /\ fld = << [a |-> 2, t |-> 0, it |-> -1] >>
-        /\ lst = <<>>
+        /\ lst = << <<>>, <<>> >>
         /\ hist = <<>>
 
 Room == Len(hist) < MaxOps
@@ -113,14 +116,31 @@ Diff(f, g) == /\ RoomF /\ f \in 1..Len(fld) /\ g \in 1..Len(fld)
               /\ fld' = Append(fld, [a |-> Len(arr) + 1, t |-> fld[f].t - fld[g].t, it |-> -1])
               /\ UNCHANGED <<usr, lst>> /\ Log("diff", <<f, g>>, arr', fld', lst)
 
+(* f.reset(t, it): time and stamp together *)
+Reset(f, t, n) == /\ Room /\ f \in 1..Len(fld) /\ (fld[f].t # t \/ fld[f].it # n)
+                  /\ fld' = [fld EXCEPT ![f].t = t, ![f].it = n]
+                  /\ UNCHANGED <<arr, usr, lst>> /\ Log("reset", <<f, t, n>>, arr, fld', lst)
+
+(* a = f.zero_datalist()[0]: a fresh array of zeros of the same shape, owned by the user, aliasing nothing *)
+Zero(f) == /\ Room /\ Len(arr) < MaxArr /\ f \in 1..Len(fld)
+           /\ arr' = Append(arr, [i \in 1..N |-> 0]) /\ usr' = usr \cup {Len(arr) + 1}
+           /\ UNCHANGED <<fld, lst>> /\ Log("zero", <<f>>, arr', fld, lst)
+
 (* flist.append(f): the list holds the object *)
-LAppend(f) == /\ Room /\ f \in 1..Len(fld) /\ Len(lst) < 3
-              /\ lst' = Append(lst, f)
-              /\ UNCHANGED <<arr, usr, fld>> /\ Log("lappend", <<f>>, arr, fld, lst')
+LAppend(L, f) == /\ Room /\ f \in 1..Len(fld) /\ Len(lst[L]) < 3
+                 /\ lst' = [lst EXCEPT ![L] = Append(@, f)]
+                 /\ UNCHANGED <<arr, usr, fld>> /\ Log("lappend", <<L, f>>, arr, fld, lst')
+
+(* flist.extend(other): the references of the other list are appended (a list may be extended by itself) *)
+LExtend(L, M) == /\ Room /\ lst[M] # <<>> /\ Len(lst[L]) + Len(lst[M]) <= 4
+                 /\ lst' = [lst EXCEPT ![L] = @ \o lst[M]]
+                 /\ UNCHANGED <<arr, usr, fld>> /\ Log("lextend", <<L, M>>, arr, fld, lst')
 
 Next == \/ \E v1, v2 \in Vals : NewArr(v1, v2)
         \/ \E a \in 1..MaxArr, t \in Times : NewField(a, t)
-        \/ \E f \in 1..MaxFld : Copy(f) \/ LAppend(f)
+        \/ \E f \in 1..MaxFld : Copy(f) \/ Zero(f) \/ (\E L \in 1..2 : LAppend(L, f))
+        \/ \E L, M \in 1..2 : LExtend(L, M)
+        \/ \E f \in 1..MaxFld, t \in Times, n \in {-1, 3} : Reset(f, t, n)
         \/ \E f, g \in 1..MaxFld : Set(f, g) \/ Diff(f, g)
         \/ \E a \in 1..MaxArr, i \in 1..N, v \in Vals : WriteArr(a, i, v)
         \/ \E f \in 1..MaxFld, i \in 1..N, v \in Vals : WriteFld(f, i, v)
@@ -139,7 +159,7 @@ WritesAreLocal == [][\A k \in 1..Len(arr) : (k \in DOMAIN arr' /\ arr'[k] # arr[
                         \/ (\E f \in 1..Len(fld) : fld[f].a = k /\ hist'[Len(hist')].op = "writefld" /\ hist'[Len(hist')].args[1] = f)
                         \/ (k \in usr /\ hist'[Len(hist')].op = "writearr" /\ hist'[Len(hist')].args[1] = k)]_fvars
 (* the list shows the objects themselves *)
-ListView == \A k \in 1..Len(lst) : lst[k] \in 1..Len(fld)
+ListView == \A L \in 1..2 : \A k \in 1..Len(lst[L]) : lst[L][k] \in 1..Len(fld)
 
 GenFile == IF "GEN_FILE" \in DOMAIN IOEnv THEN IOEnv.GEN_FILE ELSE ""
 Export == (Len(hist) = MaxOps /\ GenFile # "") => CSVWrite("%1$s", <<ToJson(hist)>>, GenFile)
